@@ -323,7 +323,67 @@ def rule_precision_pattern(ctx):
     ctx.floor("precision/scale patterns", n, 1)
 
 
+TYPE_ORACLE = {
+    # DuckDB type reported by DESCRIBE -> (snowflake type, precision, scale, length) the connector documents for it
+    "BIGINT": ("fixed", 38, 0, None), "INTEGER": ("fixed", 38, 0, None), "DOUBLE": ("real", None, None, None),
+    "VARCHAR": ("text", None, None, 16777216), "BOOLEAN": ("boolean", None, None, None), "DATE": ("date", None, None, None),
+    "TIME": ("time", 0, 9, None), "TIMESTAMP": ("timestamp_ntz", 0, 9, None), "TIMESTAMP_NS": ("timestamp_ntz", 0, 9, None),
+    "TIMESTAMP WITH TIME ZONE": ("timestamp_tz", 0, 9, None), "BLOB": ("binary", None, None, 8388608), "JSON": ("variant", None, None, None),
+}
+
+
+def rule_type_table(ctx):
+    """C06.f: describe_as_rowtype interpreted on each DuckDB type name: Snowflake type, precision, scale and length."""
+    from ..interp import Hooks
+    from ..values import Dct, Lst, Tup
+
+    prog = ctx.prog
+    m = prog.mod("types")
+    fn = prog.fn("types", "describe_as_rowtype")
+    loc = m.loc(fn)
+    n = 0
+
+    def val(v):
+        return v.v if isinstance(v, Const) else tagof(v)
+
+    for duck, (sf, prec, scale, length) in TYPE_ORACLE.items():
+        def run(I, duck=duck):
+            rows = Lst([Tup([Const("C"), Const(duck), Const("YES"), Const(None), Const(None), Const(None)])])
+            return I.call(I.global_lookup("types", "describe_as_rowtype"), [rows], {}, None)
+        for p in explore(prog, Hooks, run, max_paths=8):
+            n += 1
+            info = p.value.items[0] if p.outcome == "return" and isinstance(p.value, Lst) and p.value.items and isinstance(p.value.items[0], Dct) else None
+            got = (val(info.items.get("type")), val(info.items.get("precision")), val(info.items.get("scale")), val(info.items.get("length"))) if info else None
+            ok = got == (sf, prec, scale, length)
+            ctx.ob("C06.f", f"DuckDB {duck} -> ({sf}, precision {prec}, scale {scale}, length {length})", ok, loc, str(got))
+            if not ok:
+                what = f"is described as {got}" if got else f"raises {p.value.cls if p.outcome == 'raise' else '?'}"
+                ctx.violation("C06.f", "types", "describe_as_rowtype", f"{duck} -> {got}", loc,
+                              f"a result column of DuckDB type {duck} {what}; the connector's metadata for the matching Snowflake type is "
+                              f"({sf}, precision {prec}, scale {scale}, length {length}) — description disagrees with the fetched values")
+            break
+    # DECIMAL(p,s): precision from the first group, scale from the second
+    def run_dec(I):
+        rows = Lst([Tup([Const("C"), Const("DECIMAL(20,10)"), Const("YES"), Const(None), Const(None), Const(None)])])
+        return I.call(I.global_lookup("types", "describe_as_rowtype"), [rows], {}, None)
+    for p in explore(prog, Hooks, run_dec, max_paths=8):
+        matched = any("re." in t and v for t, v in p.assumed)
+        if not matched or p.outcome != "return":
+            continue
+        n += 1
+        info = p.value.items[0]
+        pr, sc, ty = tagof(info.items.get("precision")), tagof(info.items.get("scale")), val(info.items.get("type"))
+        ok = ty == "fixed" and pr.startswith("int(") and "[1]" in pr and sc.startswith("int(") and "[2]" in sc
+        ctx.ob("C06.f", "DECIMAL(p,s) -> fixed with precision = group 1, scale = group 2 of the pattern", ok, loc, f"{ty} {pr} {sc}")
+        if not ok:
+            ctx.violation("C06.f", "types", "describe_as_rowtype", "DECIMAL(p,s) precision/scale wiring", loc,
+                          f"for DECIMAL(p,s) description reports type {ty}, precision `{pr}`, scale `{sc}`: precision must be the first and scale "
+                          f"the second number of DuckDB's type text")
+    ctx.floor("C06.f type table rows evaluated", n, 12)
+
+
 RULES = [
+    ("C06.f", rule_type_table, ("quick", "thorough")),
     ("C06.e", rule_precision_pattern, ("quick", "thorough")),
     ("C06.a", rule_last_statement, ("quick", "thorough")),
     ("C06.b", rule_describable, ("quick", "thorough")),
